@@ -14,8 +14,10 @@ def load_claims() -> dict[str, dict]:
     """One file per claimed property: /verif/claims/Cnn.json with keys technique, text, design_ref
     (optional: category, note)."""
     out = {}
+    enabled = (ROOT / "claims" / "ENABLED").read_text().split()   # integrated and verified by the lead
     for f in sorted((ROOT / "claims").glob("C*.json")):
-        out[f.stem] = json.loads(f.read_text())
+        if f.stem in enabled:
+            out[f.stem] = json.loads(f.read_text())
     return out
 
 
